@@ -112,6 +112,11 @@ class ConstructPipeline(RewritePattern):
                 break
             assert next_op is not None
 
+        # the stages must be all there is behind the index ops: whatever else follows would stay in the
+        # loop body, and the unrolled loop skips its first (number of stages - 1) iterations
+        if not isinstance(next_op, scf.YieldOp):
+            return
+
         # a valid pipeline has at least two stages
         if len(stages) < 2:
             return
